@@ -98,6 +98,11 @@ def _gen_step(rng, sim, removed_pool, failing, tags):
         n = T.ident(r)
         if r.rt == "H":
             return None
+        if r.rt == "F" and sim.version == "gfa2" and rng.random() < 0.4:
+            # the external sequence of a fragment may be edited while the line is connected
+            # (fragments are stored under it)
+            return {"op": "setext", "name": None, "text": r.text(), "rt": "F",
+                    "value": rng.choice(["read9", "ext.7", "r2", "read1"]) + rng.choice("+-")}
         if r.tags and rng.random() < 0.4:
             t = rng.choice(r.tags)
             if t[0] in ("LN", "VN") or (t[0] == "ID" and r.rt not in ("L", "C")):
@@ -337,6 +342,9 @@ def _apply_model(sim, st, removed_pool=None):
     if op == "deltag":
         sim.del_tag(r, st["tag"])
         return "ok"
+    if op == "setext":
+        r.pos[1] = st["value"]
+        return "ok"
     return "skip"
 
 
@@ -409,6 +417,8 @@ def do_step(ctx, g, st, version, vlevel):
         return call(ctx, "delete(tag)", l.delete, st["tag"])
     if op == "setfield":
         return call(ctx, "set(reference field)", l.set, st["field"], st["value"])
+    if op == "setext":
+        return call(ctx, "set(external)", l.set, "external", st["value"])
     raise HarnessError("unknown op " + op)
 
 
@@ -747,4 +757,6 @@ def _apply_model_commit(model, st):
         model.set_tag(r, st["tag"], st["dt"], st["value"])
     elif op == "deltag":
         model.del_tag(r, st["tag"])
+    elif op == "setext":
+        r.pos[1] = st["value"]
     return 0
